@@ -48,6 +48,13 @@ pub const SPECIALS: &[&str] = &[
     "a\n...\n",
     "k: [a,\n  b]\n",
     "- {a: [b, {c: d}]}\n",
+    // added after seeded changes C15-m3 / C15-m4
+    "...\nkey: value\n",
+    "...\n",
+    "\u{feff}b: 2\n",
+    "\u{feff}--- second\n",
+    "\u{feff}%YAML 1.2\n--- v\n",
+    "# c\n...\n# d\n",
 ];
 
 fn valid_corpus() -> Vec<&'static str> {
